@@ -37,8 +37,8 @@ Domain == [
 
 \* one-factor-at-a-time invalid values named by the property
 Invalid == [
-    kernel     |-> {"unknown"},
-    resampler  |-> {"unknown"},
+    kernel     |-> {"unknown", "fragment", "empty"},        \* "hmc"; a fragment of a valid name ("rw"); ""
+    resampler  |-> {"unknown", "fragment", "empty"},        \* "strat"; "sys"; ""
     metric     |-> {"ess0", "essneg", "vv0", "vvneg", "ess0vv", "essnegvv"},   \* last two: invalid ess_ratio together with a valid volume target
     evaluation |-> {"vectorblobs"},
     bounds     |-> {"overlap", "outofrange", "negative", "nonint"},
@@ -49,6 +49,8 @@ Invalid == [
 \* rejected at construction, or accepted and the run completes - but "accepted, then the run fails" does not (the configuration
 \* was then neither rejected when the sampler was constructed nor valid).
 Unspecified == [
+    kernel     |-> {"upper"},                                \* "TPCN": rejected by the pinned code; a case-insensitive reading would also conform
+    resampler  |-> {"upper"},
     nParticles |-> {"intfloat", "npint"},
     nDim       |-> {"intfloat", "npint"} ]
 
